@@ -87,6 +87,10 @@ class Profile(dict):
             p_long=rng.choice([0.0, 0.0, 0.08]),
             p_no_synset_pos=0.0,               # Synset@partOfSpeech is optional in the DTD
             p_frame_no_id=0.0,                 # lexicon-level SyntacticBehaviour@id is optional
+            # entries and synsets numbered alike ("1", "2", ... in both tables of a relational
+            # dump): the same id string names an entry and a synset of one lexicon
+            cross_kind_ids=rng.random() < 0.2,
+            p_rerelease=0.0,
         )
         p.update(forced)
         return p
@@ -98,6 +102,9 @@ class Gen:
         self.p = profile
 
     # -- small helpers ---------------------------------------------------------------
+    def kind_letter(self, kind) -> str:
+        return 'x' if self.p.get('cross_kind_ids') else kind
+
     def chance(self, p) -> bool:
         return self.rng.random() < p
 
@@ -135,7 +142,8 @@ class Gen:
         m = {}
         for k in keys:
             if k == 'confidenceScore':
-                m[k] = self.rng.choice(['0.9', '1.0', '0.25', '1'])
+                m[k] = self.rng.choice(['0.9', '1.0', '0.25', '1', '0.8700000047683716',
+                                        '0.123456789', '2.5e-07'])
             else:
                 m[k] = self.s(attr=True)
                 if not m[k].strip():
@@ -287,11 +295,11 @@ class Gen:
         lex['frames'] = []
         nss = g.rng.randint(0, g.p['max_synsets'])
         for i in range(nss):
-            lex['synsets'].append(g.new_synset('%ss%d' % (ns, i), ge11))
+            lex['synsets'].append(g.new_synset('%s%s%d' % (ns, g.kind_letter('s'), i), ge11))
         nen = g.rng.randint(0, g.p['max_entries'])
         k = 0
         for i in range(nen):
-            e = g.new_entry('%se%d' % (ns, i), ge11, '%se%d-' % (ns, i))
+            e = g.new_entry('%s%s%d' % (ns, g.kind_letter('e'), i), ge11, '%se%d-' % (ns, i))
             if lex['synsets']:
                 for _ in range(g.rng.choice([0, 1, 1, 2, 3])):
                     ss = g.rng.choice(lex['synsets'])
@@ -448,7 +456,7 @@ class Gen:
 
         # new synsets
         for i in range(g.rng.randint(0, max(1, g.p['max_synsets'] // 2))):
-            lex['synsets'].append(g.new_synset('%ss%d' % (ns, i), True))
+            lex['synsets'].append(g.new_synset('%s%s%d' % (ns, g.kind_letter('s'), i), True))
         new_ss_ids = [ss['id'] for ss in lex['synsets']]
         k = 0
 
@@ -492,7 +500,7 @@ class Gen:
             lex['entries'].append(xe)
         # new entries
         for i in range(g.rng.randint(0, max(1, g.p['max_entries'] // 2))):
-            e = g.new_entry('%se%d' % (ns, i), True, '%se%d-' % (ns, i))
+            e = g.new_entry('%s%s%d' % (ns, g.kind_letter('e'), i), True, '%se%d-' % (ns, i))
             for _ in range(g.rng.choice([0, 1, 1, 2])):
                 tgt = pick_target_synset()
                 if tgt is None:
@@ -656,8 +664,43 @@ def generate(rng: random.Random, profile: Profile | None = None) -> dict:
             cols = [cols[0]] + list(reversed(cols[1:]))
         ili_files.append({'name': 'ili%d' % i, 'upper': g.chance(0.3), 'columns': cols,
                           'rows': rows, 'crlf': g.chance(0.2), 'extra_column': g.chance(0.2)})
+    # re-releases: other content under an unchanged id:version (installed only after the first
+    # release has been removed), e.g. a wordnet under development or a silently fixed release
+    alt = {}
+    if p.get('p_rerelease'):
+        g2 = Gen(random.Random(rng.random()), p)
+        for r in resources:
+            for sp in r['lexicons']:
+                if g2.chance(p['p_rerelease']):
+                    alt[sp] = rerelease_of(g2, lexicons[sp], r['lmf_version'] != '1.0',
+                                           'zr%d-' % order.index(sp))
     return {'profile': dict(p), 'lexicons': lexicons, 'order': order,
-            'resources': resources, 'ili_files': ili_files}
+            'resources': resources, 'ili_files': ili_files, 'alt': alt}
+
+
+def rerelease_of(g, doc, ge11, ns):
+    import copy
+    alt = copy.deepcopy(doc)
+    alt['label'] = 'revised ' + doc['label']
+    for k in range(g.rng.choice([1, 1, 2])):
+        ss = g.new_synset('%ss%d' % (ns, k), ge11)
+        ss['ili'] = ''
+        ss.pop('ili_definition', None)
+        e = g.new_entry('%se%d' % (ns, k), ge11, '%se%d-' % (ns, k))
+        e['senses'].append(g.new_sense('%sk%d' % (ns, k), ss['id'], e['lemma']['partOfSpeech'],
+                                       ge11))
+        alt['synsets'].append(ss)
+        alt['entries'].append(e)
+    for ss in alt['synsets']:
+        if not ss.get('external') and ss.get('definitions'):
+            ss['definitions'][0]['text'] = 'revised ' + ss['definitions'][0]['text']
+            break
+    for e in alt['entries']:
+        if not e.get('external') and e.get('forms') and not e['forms'][-1].get('id') \
+                and g.chance(0.5):
+            e['forms'].pop()        # (a form without id: no extension can refer to it)
+            break
+    return alt
 
 
 def _needs_11(doc) -> bool:
